@@ -14,6 +14,7 @@ import os
 import re
 from typing import Any, Dict, List, Optional
 
+from . import caller
 from . import common
 
 SUPPORT_SUFFIXES = ['StrictPort', 'ILog', 'MiscUtils', 'MetaHelpers', 'MultiClientSelector',
@@ -25,7 +26,10 @@ def parse_doc(doc: Any):
     from dznpy.json_ast import DznJsonAst  # pylint: disable=import-outside-toplevel
     text = doc if isinstance(doc, (str, bytes)) else json.dumps(doc)
     with common.quiet():
-        return DznJsonAst(text, verbose=common.verbose_for(text)).process()
+        fc = DznJsonAst(text, verbose=common.verbose_for(text)).process()
+        # the script logs what it parsed and derives names from it (vlib.caller)
+        caller.after_parse(fc)
+    return fc
 
 
 def ids_of(dotted: str) -> list:
@@ -162,7 +166,7 @@ def make_ports_cfg(enc: dict, order_seed: Optional[int] = None, pool: Optional[d
 
 
 def make_configuration(enc: dict, fc, order_seed: Optional[int] = None,
-                       pool: Optional[dict] = None):
+                       pool: Optional[dict] = None, ports_cfg=None):
     from dznpy.adv_shell import Configuration  # pylint: disable=import-outside-toplevel
     from dznpy.adv_shell.common import FacilitiesOrigin  # pylint: disable=import-outside-toplevel
     from dznpy.scoping import NamespaceIds  # pylint: disable=import-outside-toplevel
@@ -171,7 +175,7 @@ def make_configuration(enc: dict, fc, order_seed: Optional[int] = None,
         dezyne_filename=enc.get('filename', 'Model.dzn'), ast_fc=fc,
         output_basename_suffix=enc.get('suffix', 'Shell'),
         fqn_encapsulee_name=encapsulee_name(enc),
-        ports_cfg=make_ports_cfg(enc, order_seed, pool),
+        ports_cfg=ports_cfg if ports_cfg is not None else make_ports_cfg(enc, order_seed, pool),
         facilities_origin=FacilitiesOrigin.CREATE if enc.get('origin', 'create') == 'create'
         else FacilitiesOrigin.IMPORT,
         copyright=enc.get('copyright', 'Copyright (c) test'),
@@ -187,14 +191,17 @@ def make_configuration(enc: dict, fc, order_seed: Optional[int] = None,
 
 
 def build_files(enc: dict, fc, order_seed: Optional[int] = None, builder=None,
-                pool: Optional[dict] = None) -> Dict[str, str]:
+                pool: Optional[dict] = None, ports_cfg=None) -> Dict[str, str]:
     """Configure and build (with a fresh Builder unless one is handed in); returns
     [(filename, contents, hash)] in the order returned."""
     from dznpy.adv_shell import Builder  # pylint: disable=import-outside-toplevel
-    cfg = make_configuration(enc, fc, order_seed, pool)
+    cfg = make_configuration(enc, fc, order_seed, pool, ports_cfg)
     with common.quiet():
         result = (builder or Builder()).build(cfg)
-    return [(gc.filename, gc.contents, gc.hash) for gc in result.files]
+    files = [(gc.filename, gc.contents, gc.hash) for gc in result.files]
+    with common.quiet():
+        caller.after_build(result, enc)
+    return files
 
 
 def equivalent_spellings(enc: dict, provides: List[str], requires: List[str]) -> List[dict]:
@@ -229,14 +236,69 @@ def contrasting_configs(enc: dict) -> List[dict]:
             dict(enc, origin=other_origin)]
 
 
-def outcome(enc: dict, doc: Any, fc=None, warmups: Optional[List[dict]] = None) -> Dict[str, Any]:
+def revisions_of(doc: dict) -> List[dict]:
+    """Two other revisions of a document: every name as it is, every interface with two or more
+    events short of its last event (first revision) or its first event (second revision) - an
+    earlier state of the same project, or another product variant of it."""
+    out = []
+    for which in (-1, 0):
+        rev = json.loads(json.dumps(doc))
+
+        def walk(node):
+            if isinstance(node, dict):
+                if node.get('<class>') == 'interface':
+                    events = (node.get('events') or {}).get('elements')
+                    if isinstance(events, list) and len(events) >= 2:
+                        del events[which]
+                for val in node.values():
+                    walk(val)
+            elif isinstance(node, list):
+                for val in node:
+                    walk(val)
+        walk(rev)
+        out.append(rev)
+    return out
+
+
+def build_siblings(enc: dict, siblings: Optional[List[Any]]):
+    """Parse and build other revisions of the same project (same names, other contents) in the
+    same process, each with a Builder of its own: what a tool that walks over product variants
+    or re-generates after an edit did before it came to this model.  Refusals are fine."""
+    from dznpy.adv_shell import Builder  # pylint: disable=import-outside-toplevel
+    for sib in siblings or []:
+        try:
+            sib_fc = parse_doc(sib)
+            build_files(dict(enc, multiclient=None), sib_fc, builder=Builder())
+            build_files(enc, sib_fc, builder=Builder())
+            STATS['sibling_revisions_built'] = STATS.get('sibling_revisions_built', 0) + 1
+        except Exception:  # pylint: disable=broad-except
+            STATS['sibling_revisions_refused'] = STATS.get('sibling_revisions_refused', 0) + 1
+
+
+def decoy_encapsulees(enc: dict, fc) -> List[str]:
+    """Other components and systems of the same parsed model (dotted names)."""
+    mine = enc['encapsulee']
+    names = []
+    for decl in list(getattr(fc, 'components', [])) + list(getattr(fc, 'systems', [])):
+        dotted = '.'.join(decl.fqn.items)
+        if dotted != mine and dotted not in names:
+            names.append(dotted)
+    return names[:2]
+
+
+def outcome(enc: dict, doc: Any, fc=None, warmups: Optional[List[dict]] = None,
+            siblings: Optional[List[Any]] = None) -> Dict[str, Any]:
     """{'files': [(name, contents, hash)...]} or {'exc': classification}.  `warmups` are
     configurations built first in the same process from shared PortSelect objects and one
     shared Builder - a history that must not influence the result.  The last warm-up is built
     from a Configuration object that is then edited in place into the configuration asked for
-    (a script that generates several shells from one configuration object)."""
+    (a script that generates several shells from one configuration object); the ports
+    configuration object of the target is first used for the other components of the model (one
+    rule looped over all components).  `siblings` are other revisions of the document, parsed
+    and built after the target was parsed and before it is built."""
     try:
         fc = fc if fc is not None else parse_doc(doc)
+        build_siblings(enc, siblings)
         if warmups:
             import dataclasses  # pylint: disable=import-outside-toplevel
             from dznpy.adv_shell import Builder  # pylint: disable=import-outside-toplevel
@@ -249,15 +311,29 @@ def outcome(enc: dict, doc: Any, fc=None, warmups: Optional[List[dict]] = None) 
             cfg = make_configuration(warmups[-1], fc, pool=pool)
             try:
                 with common.quiet():
-                    builder.build(cfg)
+                    caller.after_build(builder.build(cfg), warmups[-1])
             except Exception:  # pylint: disable=broad-except
                 pass
             wanted = make_configuration(enc, fc, pool=pool)
+            for other in decoy_encapsulees(enc, fc):
+                decoy = make_configuration(dict(enc, encapsulee=other, encapsulee_form='ids'), fc,
+                                           pool=pool)
+                decoy.ports_cfg = wanted.ports_cfg
+                try:
+                    with common.quiet():
+                        caller.after_build(builder.build(decoy), enc)
+                except Exception:  # pylint: disable=broad-except
+                    pass
+                STATS['ports_cfg_object_used_for_another_component_first'] = \
+                    STATS.get('ports_cfg_object_used_for_another_component_first', 0) + 1
             for fld in dataclasses.fields(wanted):
                 setattr(cfg, fld.name, getattr(wanted, fld.name))
             with common.quiet():
                 result = builder.build(cfg)
-            return {'files': [(gc.filename, gc.contents, gc.hash) for gc in result.files]}
+            files = [(gc.filename, gc.contents, gc.hash) for gc in result.files]
+            with common.quiet():
+                caller.after_build(result, enc)
+            return {'files': files}
         return {'files': build_files(enc, fc)}
     except Exception as exc:  # pylint: disable=broad-except
         return {'exc': common.classify_exception(exc)}
